@@ -210,4 +210,78 @@ inductive Reachable (cfg : Cfg) (s0 : State) : State → Prop where
 def seqScript (c : Nat) (lat : Nat) (r : Res) : List Label :=
   [.invoke c, .cacheCheck c, .doEnter c, .fnStart c, .tick lat, .fnEnd c r, .cacheSet c, .doFinish c]
 
+/-! ## the event log of a run
+
+Every step of a run gets the next sequence number (`0, 1, 2, …`: the order of the steps is the
+real-time order of the events).  The log records, per caller, the sequence number of its invocation
+(`invoke`), of its return (the step that makes it `done`: a `cacheCheck` that hits, `doFinish`, `wake`),
+and, for the caller's own execution of the supplied function, of its start (`fnStart`) and end
+(`fnEnd`), together with the instants (`now`) of these events.  What was returned, what the function
+returned and where a result came from are the ghost components `pc = done r`, `execRes`, `src` of the
+state itself.  The log is pure observation: `step` never reads it. -/
+
+structure EvLog where
+  /-- number of steps so far = the sequence number of the next event -/
+  n : Nat
+  invAt   : Nat → Option Nat
+  retAt   : Nat → Option Nat
+  startAt : Nat → Option Nat
+  endAt   : Nat → Option Nat
+  invT    : Nat → Option Int
+  retT    : Nat → Option Int
+  startT  : Nat → Option Int
+  endT    : Nat → Option Int
+
+def EvLog.empty : EvLog :=
+  { n := 0, invAt := fun _ => none, retAt := fun _ => none, startAt := fun _ => none, endAt := fun _ => none,
+    invT := fun _ => none, retT := fun _ => none, startT := fun _ => none, endT := fun _ => none }
+
+/-- the log after the step labelled `l` taken in state `s` (the step is assumed enabled) -/
+def logStep (cfg : Cfg) (s : State) (g : EvLog) : Label → EvLog
+  | .invoke c => { g with n := g.n + 1, invAt := upd g.invAt c (some g.n), invT := upd g.invT c (some s.now) }
+  | .cacheCheck c =>
+    match cellGet s.now (s.cache (cfg.key c)) with
+    | some _ => { g with n := g.n + 1, retAt := upd g.retAt c (some g.n), retT := upd g.retT c (some s.now) }
+    | none => { g with n := g.n + 1 }
+  | .doEnter _ => { g with n := g.n + 1 }
+  | .fnStart c => { g with n := g.n + 1, startAt := upd g.startAt c (some g.n), startT := upd g.startT c (some s.now) }
+  | .fnEnd c _ => { g with n := g.n + 1, endAt := upd g.endAt c (some g.n), endT := upd g.endT c (some s.now) }
+  | .cacheSet _ => { g with n := g.n + 1 }
+  | .doFinish c => { g with n := g.n + 1, retAt := upd g.retAt c (some g.n), retT := upd g.retT c (some s.now) }
+  | .wake c => { g with n := g.n + 1, retAt := upd g.retAt c (some g.n), retT := upd g.retT c (some s.now) }
+  | .tick _ => { g with n := g.n + 1 }
+
+/-- run a script of labels, keeping the log -/
+def runLog (cfg : Cfg) (s : State) (g : EvLog) : List Label → Option (State × EvLog)
+  | [] => some (s, g)
+  | l :: ls => match step cfg s l with
+    | some s' => runLog cfg s' (logStep cfg s g l) ls
+    | none => none
+
+/-- (state, log) pairs reachable from the initial state with the empty log -/
+inductive ReachableLog (cfg : Cfg) (s0 : State) : State → EvLog → Prop where
+  | refl : ReachableLog cfg s0 s0 EvLog.empty
+  | step {s s' : State} {g : EvLog} (l : Label) :
+      ReachableLog cfg s0 s g → step cfg s l = some s' → ReachableLog cfg s0 s' (logStep cfg s g l)
+
+/-! ## the virtual clock
+
+Under `testing/synctest` time advances only when every goroutine is durably blocked.  In the LTS: a
+caller is *blocked* when it has not been invoked yet (it is sleeping until its start instant), is inside
+the supplied function (sleeping for the function's latency), waits for a leader that has not published
+its result yet, or has returned.  Everywhere else it is running code that takes no (virtual) time. -/
+
+def blocked (s : State) (c : Nat) : Prop :=
+  match s.pc c with
+  | .idle | .running | .done _ => True
+  | .waiting l => s.result l = none
+  | _ => False
+
+/-- runs in which `tick` steps are taken only when every caller is blocked -/
+inductive ReachableLogP (cfg : Cfg) (s0 : State) : State → EvLog → Prop where
+  | refl : ReachableLogP cfg s0 s0 EvLog.empty
+  | step {s s' : State} {g : EvLog} (l : Label) :
+      ReachableLogP cfg s0 s g → step cfg s l = some s' →
+      (∀ d, l = .tick d → ∀ c, blocked s c) → ReachableLogP cfg s0 s' (logStep cfg s g l)
+
 end GoguVerif.Model.C17
